@@ -59,6 +59,18 @@ def run(ctx: Ctx) -> int:
     pc1 = "0.0625, 0.125, 0.25"
     corpus.append(f"H 0\nCX 0 1\nPAULI_CHANNEL_1({pc1}) 0 1\nMPP Y0*Y1 X0*X1")
     corpus.append("H 0\nCX 0 1\nCX 1 2\nE(0.25) X0 Z1\nELSE_CORRELATED_ERROR(0.5) Y2\nELSE_CORRELATED_ERROR(0.125) Z0 X2\nMPP X0*X1*X2 Z1*Z2 Z0*Z1")
+    # an asymmetric multi-bit channel next to a larger channel that covers its signatures (it is absorbed: expand_channel), in both
+    # orders and on either qubit; correlated chains whose column ids are a cyclic rotation of sorted order; a chain with 5 links
+    corpus += ["H 0\nCX 0 1\nPAULI_CHANNEL_1(0.30,0.02,0.05) 0\nDEPOLARIZE2(0.1) 0 1\nMPP X0*X1 Z0*Z1",
+               "H 0\nCX 0 1\nDEPOLARIZE2(0.1) 0 1\nPAULI_CHANNEL_1(0.02,0.05,0.30) 1\nMPP Z0*Z1 X0*X1",
+               f"H 0\nCX 0 1\nH 2\nCX 2 3\nPAULI_CHANNEL_1(0.25,0.0625,0.03125) 2\nPAULI_CHANNEL_2({pc2}) 1 2\nMPP X0*X1 Z0*Z1 Z2*Z3 X2*X3",
+               "E(0.1) X0 X2\nELSE_CORRELATED_ERROR(0.3) X1\nELSE_CORRELATED_ERROR(0.6) X0\nM 0 1 2",
+               "E(0.25) X1 X2\nELSE_CORRELATED_ERROR(0.125) X2 X0\nELSE_CORRELATED_ERROR(0.5) X0\nM 2 0 1",
+               "E(0.5) X0\nELSE_CORRELATED_ERROR(0.5) X1\nELSE_CORRELATED_ERROR(0.25) X2\nELSE_CORRELATED_ERROR(0.125) X3\nELSE_CORRELATED_ERROR(0.75) X4\nM 0 1 2 3 4"]
+    # a chain followed by other channels before it is finalized (the chain's bits are numbered at the finalize)
+    corpus = ["H_YZ 5\nRX 7\nE(0.25) Z7 Z5\nH 5 7\nMR(0.125) 7\nMX 5 7",
+               "H 0\nSQRT_X 2\nH 5\nE(0.125) Z5\nELSE_CORRELATED_ERROR(0.25) Y5\nSQRT_ZZ 2 5 2 0\nSQRT_X 2 5\nPAULI_CHANNEL_1(0.0, 0.0, 0.5) 5\nZ 5 2\nT_DAG 2\nH_XZ 2 0\nMX 0 2 5",
+               "H 0\nE(0.25) X0\nX_ERROR(0.125) 0\nELSE_CORRELATED_ERROR(0.5) Z0\nDEPOLARIZE1(0.25) 0\nM 0\nE(0.5) Y0\nM(0.125) 0\nMX 0"] + corpus
     cases = [(t, {"corpus": 1}, False) for t in corpus]
     for _ in range(20 if ctx.quick else 600):
         cases.append(gen(rng, nq_max=(4 if rng.random() < 0.3 else 3), max_meas=4, max_noise=3, annotated=False, max_instr=12))
